@@ -38,6 +38,15 @@ typedef struct { const void *obj; const uintptr_t *vptr; const uintptr_t *const 
 #define DYNAMIC_TYPE_OF(ref) g_dyn_id
 #define STATIC_TYPE_OF_T g_static_id
 #define STATIC_VPTR_OF_T g_static_vptr_T
+/* the class the virtual_ptr is declared for, with its cv-qualifiers: typeid ignores them, but static_vptr<const X>
+   is a different variable from static_vptr<X>, and update() only ever writes the one of the registered class X */
+#define STATIC_TYPE_OF_DECLARED g_static_id
+#if YV_CLASS_IS_CONST
+uintptr_t *g_static_vptr_cv_T;          /* never written: stays null */
+#define STATIC_VPTR_OF_DECLARED g_static_vptr_cv_T
+#else
+#define STATIC_VPTR_OF_DECLARED g_static_vptr_T
+#endif
 
 /* Policy::hash_type_id through its contract (units/hashing): the fast lookup returns the hash value; the
    checked lookup additionally never returns for an id that is not registered (rejection lemma) but reports it */
@@ -183,10 +192,15 @@ def make_ctor(cfg):
     X.apply_rules(ex, [
         X.Rule('using namespace', r'\busing\s+namespace\s+[\w:]+\s*;', ''),
         X.Rule('static_assert dropped', r'static_assert\s*\((?:[^;"]|"(?:[^"\\]|\\.)*")*\)\s*;', '', 1, 1),
+        X.inline_using_aliases,
         X.eval_if_constexpr(facet_eval(cfg), 2),
         X.Rule('box(other)', r'\bbox\(other\)\s*;', 'YV_BOX(self, other);', 1, 1),
         X.Rule('Policy::dynamic_type(rarg(other))', r'Policy::dynamic_type\(\s*virtual_traits<Policy,\s*Other&>::rarg\(other\)\s*\)', 'DYNAMIC_TYPE_OF(other)', 1, 1),
-        X.Rule('Policy::static_type<polymorphic_type>()', r'Policy::template\s+static_type<\s*typename\s+virtual_traits<Policy,\s*Other&>::polymorphic_type\s*>\(\)', 'STATIC_TYPE_OF_T', 1, 1),
+        X.Rule('Policy::static_type<polymorphic_type>()', r'Policy::template\s+static_type<\s*typename\s+virtual_traits<Policy,\s*Other&>::polymorphic_type\s*>\(\)', 'STATIC_TYPE_OF_T'),
+        # the class the virtual_ptr is declared for, cv-qualifiers kept (virtual_ptr_traits<Class, Policy>::polymorphic_type = Class)
+        X.Rule('Policy::static_type<Class as declared>()', r'Policy::template\s+static_type<\s*typename\s+virtual_ptr_traits<Class,\s*Policy>::polymorphic_type\s*>\(\)', 'STATIC_TYPE_OF_DECLARED'),
+        X.Rule('&Policy::static_vptr<Class as declared>', r'&\s*Policy::template\s+static_vptr<\s*typename\s+virtual_ptr_traits<Class,\s*Policy>::polymorphic_type\s*>', '(const uintptr_t *const *)&STATIC_VPTR_OF_DECLARED'),
+        X.Rule('Policy::static_vptr<Class as declared>', r'Policy::template\s+static_vptr<\s*typename\s+virtual_ptr_traits<Class,\s*Policy>::polymorphic_type\s*>', 'STATIC_VPTR_OF_DECLARED'),
         X.Rule('&Policy::static_vptr<polymorphic_type>', r'&\s*Policy::template\s+static_vptr<\s*typename\s+(?:detail::)?virtual_traits<\s*Policy,\s*Other&>::polymorphic_type\s*>', '(const uintptr_t *const *)&STATIC_VPTR_OF_T'),
         X.Rule('Policy::static_vptr<polymorphic_type>', r'Policy::template\s+static_vptr<\s*typename\s+(?:detail::)?virtual_traits<\s*Policy,\s*Other&>::polymorphic_type\s*>', 'STATIC_VPTR_OF_T'),
         X.Rule('Policy::hash_type_id', r'Policy::hash_type_id\(', 'policy_hash_type_id('),
@@ -270,20 +284,22 @@ void h_copies(void)
 def jobs(tier):
     out = []
     cps = copies()
-    for hsh, checked in ((0, 0), (1, 0), (1, 1)):
-        for ind in (0, 1):
+    for hsh, checked, ind, cst in [(h, c, i, k) for (h, c) in ((0, 0), (1, 0), (1, 1)) for i in (0, 1) for k in (0, 1)]:
+        if True:
             cfg = {'hash': bool(hsh), 'indirect': bool(ind), 'checks': bool(checked)}
-            name = 'hash%d-checked%d-indirect%d' % (hsh, checked, ind)
+            name = 'hash%d-checked%d-indirect%d%s' % (hsh, checked, ind, '-constclass' if cst else '')
             exc, exf, exv = make_ctor(cfg), make_final(cfg), make_vptr(cfg)
+            if cst and 'DECLARED' not in exc.body + exf.body:
+                continue      # the code never names the declared class: identical to the non-const configuration
             c = (H.STATICS + H.GHOST + VP.VSHIM +
                  TEXT.replace('@CTOR@', exc.body).replace('@FINAL@', exf.body).replace('@VPTR@', exv.body).replace('@COPIES@', cps))
             defs = ['NCLS=4', 'YV_FACET_HASH=%d' % hsh, 'YV_FACET_CHECKED=%d' % checked, 'YV_FACET_INDIRECT=%d' % ind,
-                    'YV_FACET_RUNTIME_CHECKS=%d' % checked]
+                    'YV_FACET_RUNTIME_CHECKS=%d' % checked, 'YV_CLASS_IS_CONST=%d' % cst]
             fd = ['%s virtual_ptr::virtual_ptr(Other&&) sha256:%s' % (exc.where(), exc.sha()),
                   '%s virtual_ptr::final sha256:%s' % (exf.where(), exf.sha()),
                   '%s virtual_ptr::_vptr sha256:%s' % (exv.where(), exv.sha())]
             tr = ['if constexpr (has_facet<...>) evaluated per facet set; box() for plain pointers as obj = &value; the vptr member as vptr (direct) / ivptr (indirect)',
-                  'Policy::dynamic_type / static_type<T>() / static_vptr<T> as opaque values with "one class per id"',
+                  'Policy::dynamic_type / static_type<T>() / static_vptr<T> as opaque values with "one class per id"; static_vptr<cv T> is a distinct, never written variable (template statics are keyed by the cv-qualified type)',
                   'Policy::hash_type_id through its contract (fast: value; checked: rejects unregistered ids, units/hashing)',
                   'vptrs / indirect_vptrs as Skolem arrays holding publish_vptrs\' postcondition for the dynamic class (units/vptrs)']
             for e, h, mc in (('ctor', 'h_ctor', 2), ('final', 'h_final', 1)):
@@ -295,7 +311,7 @@ def jobs(tier):
     c = (H.STATICS + H.GHOST + VP.VSHIM + TEXT.replace('@CTOR@', make_ctor(cfg).body).replace('@FINAL@', make_final(cfg).body)
          .replace('@VPTR@', make_vptr(cfg).body).replace('@COPIES@', cps))
     out.append(Job(unit='virtual_ptr', config='copy-constructors', c_text=c, entry='h_copies', kind='proof', unwind=10,
-                   defines=['NCLS=4', 'YV_FACET_HASH=1', 'YV_FACET_CHECKED=0', 'YV_FACET_INDIRECT=0', 'YV_FACET_RUNTIME_CHECKS=0'],
+                   defines=['NCLS=4', 'YV_FACET_HASH=1', 'YV_FACET_CHECKED=0', 'YV_FACET_INDIRECT=0', 'YV_FACET_RUNTIME_CHECKS=0', 'YV_CLASS_IS_CONST=0'],
                    min_obligations=3, min_cover=1,
                    functions=['include/yorel/yomm2/core.hpp virtual_ptr converting / copy / move constructors (member-initialiser lists)'],
                    trusted=['member-initialiser lists obj(e1), vptr(e2) as two assignments; std::move on a plain pointer is a copy'],
